@@ -18,7 +18,9 @@ open PM
 theorem contentBetween_structural (doc : Node) (f t : Nat) (hft : f ≤ t) (ht : t ≤ fsize doc.kids)
     (hb : atBoundary doc f = true) (h : contentBetween doc f t = some false) :
     structuralOnly (((ftoks doc.kids).drop f).take (t - f)) = true := by
-  sorry
+  -- (`ht` is not needed: past the end of the document `content_between` answers "yes")
+  have _ := ht
+  exact contentBetween_structural' doc f t hft hb h
 
 /-- **a structure-only step that applies preserves the text and leaf nodes exactly** (marks and
     attributes included, in order) -/
@@ -26,7 +28,68 @@ theorem structural_keeps_content (S : Schema) (doc doc' : Node) (st : Step)
     (hm : isStructuralAt doc st = true) (hwf : ∀ f t gf gt sl i b, st = .replaceAround f t gf gt sl i b → sl.wf = true ∧ (i : Int) ≤ sl.size)
     (h : S.apply st doc = .ok doc') :
     (ftoks doc'.kids).filter Tok.isContent = (ftoks doc.kids).filter Tok.isContent := by
-  sorry
+  cases st with
+  | replace f t sl c =>
+    simp only [isStructuralAt, isStructural, Bool.and_eq_true, decide_eq_true_eq] at hm
+    obtain ⟨⟨hc, hsl⟩, hft, hb⟩ := hm
+    subst hc
+    obtain ⟨e, _, ht, _⟩ := apply_replace_toks S doc doc' f t sl true h
+    have hcb : contentBetween doc f t = some false := by
+      unfold Schema.apply at h
+      simp only [if_true] at h
+      split at h
+      · simp at h
+      · simp at h
+      · assumption
+    have hs := contentBetween_structural doc f t hft ht hb hcb
+    rw [structuralOnly_iff] at hs hsl
+    rw [sliceToks'_eq] at hsl
+    have e0 : ftoks doc.kids = (ftoks doc.kids).take f ++ (((ftoks doc.kids).drop f).take (t - f)
+        ++ (ftoks doc.kids).drop t) := by
+      rw [← drop_split _ f t hft, List.take_append_drop]
+    conv => rhs; rw [e0]
+    rw [e]
+    simp only [List.filter_append, hs, hsl, List.append_nil, List.nil_append]
+  | replaceAround f t gf gt sl i c =>
+    simp only [isStructuralAt, isStructural, Bool.and_eq_true, decide_eq_true_eq] at hm
+    obtain ⟨⟨hc, hsl⟩, ⟨⟨⟨hfg, hgg⟩, hgt⟩, hb1⟩, hb2⟩ := hm
+    subst hc
+    obtain ⟨w1, w2⟩ := hwf f t gf gt sl i true rfl
+    obtain ⟨e, ht, _⟩ := apply_replaceAround_toks S doc doc' f t gf gt sl i true w1 w2 ⟨hfg, hgg, hgt⟩ h
+    have hcb : contentBetween doc f gf = some false ∧ contentBetween doc gt t = some false := by
+      unfold Schema.apply at h
+      simp only [if_true] at h
+      cases h1 : contentBetween doc f gf with
+      | none => simp [h1] at h
+      | some b1 =>
+        cases b1 with
+        | true => simp [h1] at h
+        | false =>
+          cases h2 : contentBetween doc gt t with
+          | none => simp [h1, h2] at h
+          | some b2 =>
+            cases b2 with
+            | true => simp [h1, h2] at h
+            | false => exact ⟨rfl, rfl⟩
+    have hs1 := contentBetween_structural doc f gf hfg (by omega) hb1 hcb.1
+    have hs2 := contentBetween_structural doc gt t hgt ht hb2 hcb.2
+    rw [structuralOnly_iff] at hs1 hs2 hsl
+    rw [sliceToks'_eq] at hsl
+    have hsl' := hsl
+    rw [← List.take_append_drop i sl.toks, List.filter_append, List.append_eq_nil_iff] at hsl'
+    have e0 : ftoks doc.kids = (ftoks doc.kids).take f ++ (((ftoks doc.kids).drop f).take (gf - f)
+        ++ (((ftoks doc.kids).drop gf).take (gt - gf) ++ (((ftoks doc.kids).drop gt).take (t - gt)
+        ++ (ftoks doc.kids).drop t))) := by
+      rw [← drop_split _ gt t hgt, ← drop_split _ gf gt hgg, ← drop_split _ f gf hfg, List.take_append_drop]
+    conv => rhs; rw [e0]
+    rw [e]
+    simp only [List.filter_append, hs1, hs2, hsl'.1, hsl'.2, List.nil_append, List.append_assoc]
+  | addMark => simp [isStructuralAt, isStructural] at hm
+  | removeMark => simp [isStructuralAt, isStructural] at hm
+  | addNodeMark => simp [isStructuralAt, isStructural] at hm
+  | removeNodeMark => simp [isStructuralAt, isStructural] at hm
+  | attr => simp [isStructuralAt, isStructural] at hm
+  | docAttr => simp [isStructuralAt, isStructural] at hm
 
 /-- … and is valid whenever its payload is (C01) -/
 theorem structural_valid (S : Schema) (doc doc' : Node) (st : Step) (hd : C01.Valid S doc)
